@@ -276,9 +276,211 @@ class SimProcess:
         return None if self.task is None or not self.task.done else self.task.exitcode
 
     def terminate(self):
-        raise HarnessError('Process.terminate not simulated')
+        t = self.task
+        if t is not None and not t.done:
+            # the simulated process is gone; its (parked) thread is abandoned
+            t.killed = True
+            t.done = True
+            t.exitcode = -15
+            t.blocked_on = None
+            t.cond = lambda: False
 
     kill = terminate
+
+    def close(self):
+        pass
+
+
+class _Plain:
+    """environment of non-manager primitives (multiprocessing.Queue etc.): never shut down"""
+    manager_closed = False
+
+    def __init__(self, env):
+        self.sim = env.sim
+
+
+class SimAsyncResult:
+    def __init__(self, pool, n=1, single=True):
+        self.pool, self.single = pool, single
+        self.slots = [None] * n
+        self.left = n
+
+    def ready(self):
+        return self.left == 0
+
+    def successful(self):
+        if self.left:
+            raise ValueError('not ready')
+        return all(s[0] for s in self.slots)
+
+    def wait(self, timeout=None):
+        self.pool.env.sim.seam('pool.wait', cond=lambda: self.left == 0 or self.pool.dead())
+
+    def get(self, timeout=None):
+        self.pool.env.sim.seam('pool.result.get', cond=lambda: self.left == 0 or self.pool.dead())
+        if self.left:
+            raise HarnessError('pool terminated with results outstanding (a real Pool would block here)')
+        out = []
+        for ok, data in self.slots:
+            v = pickle.loads(data)
+            if not ok:
+                raise v
+            out.append(v)
+        return out[0] if self.single else out
+
+
+class SimPool:
+    """multiprocessing.Pool on the simulator: worker tasks pull (func, args) items from an unbounded internal queue;
+    results and exceptions travel back pickled; imap_unordered yields in completion order (schedule dependent)."""
+
+    def __init__(self, env, processes=None, initializer=None, initargs=(), maxtasksperchild=None):
+        self.env = env
+        self.n = processes or env.cpu_count
+        self.tasks = collections.deque()
+        self.closed = False
+        self.terminated = False
+        self.workers = []
+        self.done_order = []
+        env.sim.seam('pool.start', cost=env.start_cost)
+        for i in range(self.n):
+            t = env.sim.spawn('PoolWorker-%d' % (i + 1), self._worker(i, initializer, initargs), start_clock=env.sim.current.clock)
+            t.speed = env.speed_of(i)
+            t.worker_index = i
+            self.workers.append(t)
+
+    def dead(self):
+        return self.terminated or all(w.done for w in self.workers)
+
+    def _worker(self, i, initializer, initargs):
+        def body():
+            sim = self.env.sim
+            if initializer is not None:
+                initializer(*initargs)
+            while True:
+                sim.seam('pool.task.get', cond=lambda: bool(self.tasks) or self.closed or self.terminated)
+                if self.terminated or (not self.tasks and self.closed):
+                    return
+                func, args, res, slot = self.tasks.popleft()
+                sim.trace.append(('get', sim.current.tid, len(self.done_order), ('task', slot)))
+                try:
+                    val = func(*args)
+                    payload = (True, pickle.dumps(val, protocol=pickle.HIGHEST_PROTOCOL))
+                except Exception as e:        # Pool catches Exception in the worker and re-raises it in the parent
+                    try:
+                        payload = (False, pickle.dumps(e, protocol=pickle.HIGHEST_PROTOCOL))
+                    except Exception as e2:
+                        payload = (False, pickle.dumps(RuntimeError('unpicklable exception: %r' % (e,))))
+                sim.seam('pool.result.put')
+                res.slots[slot] = payload
+                res.left -= 1
+                self.done_order.append(slot)
+                sim.trace.append(('append', sim.current.tid, ('task', slot)))
+        return body
+
+    def _submit(self, func, arglist, single):
+        if self.closed or self.terminated:
+            raise ValueError('Pool not running')
+        res = SimAsyncResult(self, len(arglist), single)
+        memo = {}
+        bound_self = getattr(func, '__self__', None)
+        if bound_self is not None and not isinstance(bound_self, type):
+            func = getattr(copy.deepcopy(bound_self, memo), func.__name__)      # the task is pickled: the child works on a copy
+        self.env.sim.seam('pool.submit')
+        for slot, a in enumerate(arglist):
+            self.tasks.append((func, copy.deepcopy(tuple(a), memo), res, slot))
+        return res
+
+    def apply_async(self, func, args=(), kwds=None, callback=None, error_callback=None):
+        if kwds:
+            f0 = func
+            func = lambda *a: f0(*a, **kwds)
+        return self._submit(func, [tuple(args)], True)
+
+    def apply(self, func, args=(), kwds=None):
+        return self.apply_async(func, args, kwds).get()
+
+    def map_async(self, func, iterable, chunksize=None, callback=None, error_callback=None):
+        return self._submit(func, [(x,) for x in iterable], False)
+
+    def map(self, func, iterable, chunksize=None):
+        return self.map_async(func, iterable).get()
+
+    def starmap_async(self, func, iterable, chunksize=None, callback=None, error_callback=None):
+        return self._submit(func, [tuple(x) for x in iterable], False)
+
+    def starmap(self, func, iterable, chunksize=None):
+        return self.starmap_async(func, iterable).get()
+
+    def imap(self, func, iterable, chunksize=1):
+        res = self._submit(func, [(x,) for x in iterable], False)
+        sim = self.env.sim
+
+        def gen():
+            for i in range(len(res.slots)):
+                sim.seam('pool.imap.next', cond=lambda i=i: res.slots[i] is not None or self.dead())
+                if res.slots[i] is None:
+                    raise HarnessError('pool terminated with results outstanding')
+                ok, data = res.slots[i]
+                v = pickle.loads(data)
+                if not ok:
+                    raise v
+                yield v
+        return gen()
+
+    def imap_unordered(self, func, iterable, chunksize=1):
+        res = self._submit(func, [(x,) for x in iterable], False)
+        sim = self.env.sim
+        start = len(self.done_order)
+        mine = []
+
+        def gen():
+            seen = 0
+            pos = start
+            while seen < len(res.slots):
+                sim.seam('pool.imap_unordered.next', cond=lambda: len(self.done_order) > pos or self.dead())
+                if len(self.done_order) <= pos:
+                    raise HarnessError('pool terminated with results outstanding')
+                # results of other submissions may be interleaved in done_order: skip those that are not ours
+                slot = self.done_order[pos]
+                pos += 1
+                if res.slots[slot] is None or (slot, id(res)) in mine:
+                    continue
+                mine.append((slot, id(res)))
+                seen += 1
+                ok, data = res.slots[slot]
+                v = pickle.loads(data)
+                if not ok:
+                    raise v
+                yield v
+        g = gen()
+
+        class It:
+            def __iter__(s2):
+                return s2
+
+            def __next__(s2):
+                nonlocal pos_holder
+                return next(g)
+        pos_holder = None
+        return It()
+
+    def close(self):
+        self.closed = True
+
+    def terminate(self):
+        self.terminated = True
+
+    def join(self):
+        if not (self.closed or self.terminated):
+            raise ValueError('Pool is still running')
+        self.env.sim.seam('pool.join', cond=lambda: all(w.done for w in self.workers))
+
+    def __enter__(self):
+        return self
+
+    def __exit__(self, *a):
+        self.terminate()
+        return False
 
 
 class Env:
@@ -301,6 +503,10 @@ class Env:
     def speed_of(self, idx):
         return self.speeds.get(idx, 1.0)
 
+    def _reg_queue(self, q):
+        self.queues.append(q)
+        return q
+
     def _unsimulated(self, name):
         def f(*a, **k):
             raise HarnessError('multiprocessing.%s is not simulated by this harness' % name)
@@ -313,8 +519,11 @@ class Env:
             'Process': lambda *a, **k: SimProcess(self, *a, **k),
             'cpu_count': lambda: self.cpu_count,
         }
-        for name in ('Pool', 'Queue', 'SimpleQueue', 'JoinableQueue', 'Pipe', 'Lock', 'Value', 'Array',
-                     'get_context', 'Event', 'Semaphore', 'Barrier'):
+        plain = _Plain(self)
+        repl['Pool'] = lambda *a, **k: SimPool(self, *a, **k)
+        repl['Queue'] = lambda maxsize=0, **k: self._reg_queue(SimQueue(plain, maxsize))
+        repl['SimpleQueue'] = lambda **k: self._reg_queue(SimQueue(plain, 0))
+        for name in ('JoinableQueue', 'Pipe', 'Lock', 'Value', 'Array', 'get_context', 'Event', 'Semaphore', 'Barrier'):
             repl[name] = self._unsimulated(name)
         for k, v in repl.items():
             self._saved[k] = getattr(mpm, k)
